@@ -94,7 +94,7 @@ def run(ctx, chk):
                 chk.ob("G05/update", "KmerIter::next", dict(p.stores) == {idx: canon(add(idx, c(1)))},
                        "state update %s, expected index := index + 1" % {show(k): show(v) for k, v in p.stores}, b["span"])
             rows += 1
-        an.no_overrides(chk, bio, "I-override", "KmerIter", "std::iter::Iterator", r"^kmer::KmerIter<A, K>$", ("next",), tolerated=("size_hint",))
+        an.no_overrides(chk, bio, "I-override", "KmerIter", "std::iter::Iterator", r"^kmer::KmerIter<A, K>$", ("next",))
         # ---- G07 try_from(&SeqSlice) ----
         b = an.one(chk, "G07", bio, "Kmer::try_from(&SeqSlice)", name="try_from", trait="std::convert::TryFrom", self_re=r"^kmer::Kmer<A, K, S>$",
                    targ_re=r"^&seq::slice::SeqSlice<A>$")
